@@ -210,7 +210,7 @@ type c05Conn struct {
 	closedCh chan struct{}
 }
 
-func (x *c05Conn) deadline() { x.raw.SetReadDeadline(time.Now().Add(15 * time.Second)) }
+func (x *c05Conn) deadline() { x.raw.SetReadDeadline(time.Now().Add(60 * time.Second)) }
 
 func (x *c05Conn) upgrade() error {
 	tc := tls.Client(x.conn, memTLSClientConfig())
@@ -452,7 +452,7 @@ func (x *c05Conn) group(g []c05Step, tlsNow *bool) []string {
 	if x.dead {
 		select {
 		case <-x.closedCh:
-		case <-time.After(10 * time.Second):
+		case <-time.After(60 * time.Second):
 		}
 		calls = c05NoClose(x.logFrom(n0))
 	} else {
@@ -562,7 +562,7 @@ func (s *c05Server) run(h []c05Step, pipeFrom int) (greet string, obs []string, 
 	raw.Close()
 	select {
 	case <-closed:
-	case <-time.After(10 * time.Second):
+	case <-time.After(60 * time.Second):
 	}
 	log := x.logFrom(0)
 	closes, closeSt, extra := 0, "-", 0
